@@ -866,6 +866,58 @@ Definition D2 := diffs (list_eqb String.eqb) (fun x => [["getImportPath"]; show_
 Definition D := Eval vm_compute in firstn 3 (D1 ++ D2)%list.
 """,
         "args": ["op", "Doc comment group", "trailing comment group"], "replay": None},
+
+    # ---------------------------------------------------------------- fifth batch
+    "UsesMagefiles": {
+        "checks": ["C09", "C10"],
+        "file": "mage/main.go", "names": "Invocation.UsesMagefiles!?filepath.Base=string>string,+Invocation.Dir", "src": ["Invocation.UsesMagefiles"],
+        "model": "the flag the models take as an input (Model/Lifecycle.f_mfdir, Model/Constraints top_named: \"filepath.Base(inv.Dir) == magefiles\"): the function IS that test, with the directory name of Model/Tables.v; filepath.Base is a parameter",
+        "requires": "From Mage Require Model.Tables.\n", "defs": "",
+        "theorems": ["x_UsesMagefiles_spec"],
+        "agree": """Theorem x_UsesMagefiles_spec : forall base inv,
+  x_Invocation_UsesMagefiles base inv = String.eqb (base (x_Invocation_Dir inv)) Tables.expected_MagefilesDirName.
+Proof. intros. unfold x_Invocation_UsesMagefiles. cbv zeta. try reflexivity; go_cases; try reflexivity; congruence. Qed.
+""",
+        "search": """Definition base (s : string) : string := match rev (split_char "/"%char s) with x :: _ => x | [] => s end.
+Definition grid := ["magefiles"; "."; "a/magefiles"; "magefiles/x"; "Magefiles"; ""; "x/magefile"; "/abs/magefiles"].
+Definition D := Eval vm_compute in firstn 3 (diffs Bool.eqb (fun s => [[s]]) show_bool
+  (fun s => x_Invocation_UsesMagefiles base (x_Invocation_mk [s])) (fun s => String.eqb (base s) Tables.expected_MagefilesDirName) grid).
+""",
+        "args": ["inv.Dir"], "replay": None},
+
+    "funcType": {
+        "checks": ["C06"],
+        "file": "parse/parse.go", "names": "funcType!?hasTypeParams=ast.FuncType>bool,hasVoidReturn", "src": ["funcType"],
+        "model": "Model/Classify.funcType (C06: the whole signature test: type parameters, context, result, the argument loop over parse.argTypes with the names given to unnamed parameters); hasTypeParams (another file, build-tagged) and fmt.Sprint of a type expression are parameters",
+        "requires": "From Mage Require Import Proof.GoLib_models.\nFrom Mage Require Model.Classify.\n",
+        "defs": "Import Classify.\n",
+        "theorems": ["x_hasContextParam_Classify", "x_hasVoidReturn_Classify", "x_hasErrorReturn_Classify", "x_funcType_Classify"],
+        "agree": 'Ltac go_sig := cbn; try lia; try reflexivity; try (split; [reflexivity|discriminate]); try congruence.\nTheorem x_hasContextParam_Classify : forall ft,\n  agrees (x_hasContextParam ft) (Classify.hasContextParam (map pgroup_of (fieldlist_List (ft_params ft)))).\nProof.\n  intros [tp [[|f r]|] rs]; cbn [ft_params fieldlist_List map]; try (cbn; reflexivity).\n  unfold x_hasContextParam, Classify.hasContextParam. cbn [ft_params]. cbv zeta.\n  rewrite ?NumFields_params. cbn [map fieldlist_List]. rewrite ?index_0.\n  pose proof (num_fields_cons (pgroup_of f) (map pgroup_of r)) as N.\n  destruct (Nat.ltb_spec (num_fields (pgroup_of f :: map pgroup_of r)) 1); [lia|].\n  destruct f as [names ty]. cbn [fld_type fld_names pgroup_of pty_ pnames] in *.\n  destruct ty as [n|[p|x\' s\'|tag\'] s|tag]; cbn [ast_as_Selector ast_as_Ident pty_of negb fst snd]; unfold len_ in *;\n    destruct (Nat.ltb_spec 1 (length names)); go_cases; go_sig.\nQed.\nTheorem x_hasVoidReturn_Classify : forall sp ft,\n  x_hasVoidReturn ft = Nat.eqb (num_fields_r (map (rgroup_of sp) (fieldlist_List (ft_results ft)))) 0.\nProof.\n  intros sp [tp ps [l|]]; unfold x_hasVoidReturn; cbv zeta; cbn [ft_results fieldlist_List map]; [|reflexivity].\n  rewrite ?(NumFields_results sp).\n  destruct (Nat.eqb_spec (num_fields_r (map (rgroup_of sp) l)) 0); go_cases; go_sig.\nQed.\nTheorem x_hasErrorReturn_Classify : forall sp ft,\n  agrees (x_hasErrorReturn sp ft) (Classify.hasErrorReturn (map (rgroup_of sp) (fieldlist_List (ft_results ft)))).\nProof.\n  intros sp [tp ps [[|f r]|]]; cbn [ft_results fieldlist_List map]; try (cbn; reflexivity).\n  unfold x_hasErrorReturn, Classify.hasErrorReturn. cbn [ft_results]. cbv zeta.\n  rewrite ?(NumFields_results sp). cbn [map fieldlist_List]. rewrite ?index_0.\n  pose proof (num_fields_r_cons (rgroup_of sp f) (map (rgroup_of sp) r)) as N.\n  set (n := num_fields_r (rgroup_of sp f :: map (rgroup_of sp) r)) in *.\n  destruct (Nat.eqb_spec n 0); [lia|]. destruct (Nat.ltb_spec 1 n).\n  - go_cases; go_sig.\n  - cbn [rgroup_of rnames rkind_] in *. unfold len_ in *.\n    destruct (Nat.ltb_spec 1 (length (fld_names f))); destruct (String.eqb (sp (fld_type f)) "error") eqn:E; go_cases; go_sig.\nQed.\n\nDefinition aty_text (a : aty) : string := match a with AString => "string" | AInt => "int" | ABool => "bool" | ADur => "time.Duration" end.\nDefinition key_of (a : aty) : string := match a with AString => "string" | AInt => "int" | ABool => "bool" | ADur => "&{time Duration}" end.\nDefinition arg_of (na : string * aty) : x_Arg := {| x_Arg_Name := fst na; x_Arg_Type := aty_text (snd na) |}.\n(* what fmt.Sprint prints for a parameter type: the key of parse.argTypes for the four supported spellings, no key otherwise *)\nDefinition sprint_ok (sp : ast_expr -> string) : Prop :=\n  forall e, match argType (pty_of e) with\n            | Some a => sp e = key_of a\n            | None => ~ In (sp e) ["string"; "int"; "bool"; "&{time Duration}"]\n            end.\nDefinition fdecl_of (generic : bool) (sp : ast_expr -> string) (ft : ast_functype) : fdecl :=\n  {| fname := ""; recv := None; tparams := generic; params := map pgroup_of (fieldlist_List (ft_params ft));\n     res := map (rgroup_of sp) (fieldlist_List (ft_results ft)); fdoc := ""; fsyn := "" |}.\n\nLemma skipn_nth_cons : forall {A} (d : A) l a, a < length l -> skipn a l = nth a l d :: skipn (S a) l.\nProof. induction l as [|x l IH]; intros [|a] H; simpl in *; try lia; auto. apply IH. lia. Qed.\n\nTheorem x_funcType_Classify : forall sp htp ft, sprint_ok sp ->\n  match Classify.funcType (fdecl_of (htp ft) sp ft) with\n  | Some fn => x_funcType sp htp ft =\n      ({| x_Function_IsError := f_iserr fn; x_Function_IsContext := f_isctx fn; x_Function_Args := map arg_of (f_args fn) |}, None)\n  | None => snd (x_funcType sp htp ft) <> None\n  end.\nProof.\n  intros sp htp ft SP. unfold x_funcType, Classify.funcType, Classify.funcType_, fdecl_of. cbv zeta. cbn [tparams params res].\n  destruct (htp ft); [cbn; discriminate|].\n  pose proof (x_hasContextParam_Classify ft) as HC. unfold agrees in HC.\n  destruct (Classify.hasContextParam (map pgroup_of (fieldlist_List (ft_params ft)))) as [isctx|] eqn:MC.\n  2:{ destruct (x_hasContextParam ft) as [b e]. cbn [fst snd] in HC. destruct HC as [_ HC]. destruct e; [cbn; discriminate|congruence]. }\n  rewrite HC. cbn [is_nil negb].\n  pose proof (x_hasErrorReturn_Classify sp ft) as HE. unfold agrees in HE.\n  destruct (Classify.hasErrorReturn (map (rgroup_of sp) (fieldlist_List (ft_results ft)))) as [iserr|].\n  2:{ destruct (x_hasErrorReturn sp ft) as [b e]. cbn [fst snd] in HE. destruct HE as [_ HE]. destruct e; [cbn; discriminate|congruence]. }\n  rewrite HE. cbn [is_nil negb x_Function_IsContext x_Function_with_IsContext x_Function_with_IsError x_Function_zero].\n  set (ps := fieldlist_List (ft_params ft)) in *. clearbody ps.\n  match goal with |- context [fold_left ?G (zrange _ _) (?n, _)] => set (GG := G); pose (NN := n) end.\n  assert (RET : forall l r st, fold_left GG l (Some r, st) = (Some r, st)).\n  { induction l as [|x l IHl]; intros; cbn [fold_left]; [reflexivity|]. unfold GG at 2. cbv beta iota. apply IHl. }\n  assert (NAMES : forall typ names f,\n    fold_left (fun (f0 : x_Function) (name : string) =>\n                 x_Function_with_Args f0 (x_Function_Args f0 ++ [x_Arg_with_Type (x_Arg_with_Name x_Arg_zero name) typ])) names f\n    = x_Function_with_Args f (x_Function_Args f ++ map (fun n => x_Arg_with_Type (x_Arg_with_Name x_Arg_zero n) typ) names)).\n  { intros typ. induction names as [|n ns IHn]; intros f; cbn [fold_left map].\n    - rewrite app_nil_r. destruct f; reflexivity.\n    - rewrite IHn. cbn [x_Function_with_Args x_Function_Args]. rewrite <- app_assoc. reflexivity. }\n  assert (LOOP : forall k a f acc, k + a = length ps -> x_Function_Args f = map arg_of acc ->\n     match args_loop true (map pgroup_of (skipn a ps)) acc with\n     | Some args => fold_left GG (zrange (Z.of_nat a) (len_ ps)) (NN, f) = (NN, x_Function_with_Args f (map arg_of args))\n     | None => exists r st, fold_left GG (zrange (Z.of_nat a) (len_ ps)) (NN, f) = (Some r, st) /\\ snd r <> None\n     end).\n  { induction k as [|k IH]; intros a f acc Hk HA.\n    - replace a with (length ps) by lia. rewrite skipn_all. cbn [map args_loop].\n      rewrite zrange_nil by (unfold len_; lia). cbn [fold_left]. f_equal. destruct f; cbn in *; now rewrite HA.\n    - rewrite (skipn_nth_cons ast_field_zero ps a) by lia. cbn [map args_loop].\n      rewrite zrange_cons by (unfold len_; lia). cbn [fold_left]. unfold NN. set (FOLD := fold_left GG (zrange (Z.of_nat a + 1) (len_ ps))). unfold GG. cbv beta iota.\n      rewrite !index_nat. set (p := nth a ps ast_field_zero). cbn [pgroup_of pty_ pnames].\n      pose proof (SP (fld_type p)) as Hs. destruct (argType (pty_of (fld_type p))) as [ty|] eqn:AT.\n      + rewrite Hs.\n        repeat match goal with |- context [map_has ?m (key_of ty)] => destruct ty end;\n        repeat match goal with\n               | |- context [map_has ?m ?k] => let b := eval vm_compute in (map_has m k) in change (map_has m k) with b\n               | |- context [map_get ?z ?m ?k] => let b := eval vm_compute in (map_get z m k) in change (map_get z m k) with b\n               end; cbn [negb]; rewrite NAMES.\n        all: unfold FOLD; fold GG; replace (Z.of_nat a + 1)%Z with (Z.of_nat (S a)) by lia.\n        all: destruct (fld_names p) as [|n0 ns]; cbn [length Nat.eqb andb map].\n        all: try change (len_ (@nil string)) with 0%Z; try rewrite len_cons; try (pose proof (len_nonneg ns)).\n        all: match goal with |- context [Z.eqb ?x 0] => destruct (Z.eqb_spec x 0); try lia end.\n        all: match goal with |- match args_loop true ?r ?acc2 with _ => _ end =>\n               match goal with |- context [fold_left _ _ (_, ?f\')] =>\n                 let P := fresh "P" in\n                 assert (P : x_Function_Args f\' = map arg_of acc2);\n                 [ cbn [x_Function_Args x_Function_with_Args]; rewrite HA, ?app_nil_r, ?map_app; unfold len_; rewrite ?map_length, ?strconv_Itoa_nat;\n                   cbn [map arg_of fst snd aty_text]; rewrite ?map_map; reflexivity\n                 | specialize (IH (S a) f\' acc2 ltac:(lia) P); unfold NN in IH ] end end.\n        all: match goal with |- match ?m with _ => _ end => destruct m end; [rewrite IH; reflexivity|exact IH].\n      + (* no key of argTypes: the error return *)\n        assert (NK : forall m : gomap string, map fst m = ["string"; "int"; "&{time Duration}"; "bool"] -> map_has m (sp (fld_type p)) = false).\n        { intros m Hm. destruct m as [|[k1 v1] [|[k2 v2] [|[k3 v3] [|[k4 v4] [|? ?]]]]]; try discriminate. injection Hm as -> -> -> ->.\n          cbn [map_has]. repeat match goal with |- context [String.eqb ?x ?y] => let E := fresh "E" in destruct (String.eqb_spec x y) as [E|E]; [exfalso; apply Hs; rewrite E; cbn; tauto|] end. reflexivity. }\n        rewrite NK by reflexivity. cbn [negb]. unfold FOLD. rewrite RET. eexists _, _. split; [reflexivity|cbn; discriminate]. }\n  subst NN. cbv beta in LOOP. rewrite skipn_map.\n  set (f0 := x_Function_with_IsError (x_Function_with_IsContext x_Function_zero isctx) iserr).\n  assert (A0 : (if isctx then 1 else 0) <= length ps).\n  { destruct isctx; [|lia]. destruct ps; [cbn in MC; discriminate|cbn; lia]. }\n  pose proof (LOOP (length ps - (if isctx then 1 else 0)) (if isctx then 1 else 0) f0 [] ltac:(lia) eq_refl) as L.\n  replace (if isctx then (0 + 1)%Z else 0%Z) with (Z.of_nat (if isctx then 1 else 0)) by (destruct isctx; reflexivity).\n  destruct (args_loop true (map pgroup_of (skipn (if isctx then 1 else 0) ps)) []) as [args|].\n  - rewrite L. reflexivity.\n  - destruct L as (r & st & -> & Hr). exact Hr.\nQed.\n',
+        "search": """Import Classify.
+Definition sp (e : ast_expr) : string :=
+  match e with AIdent n => n | ASelector (AIdent p) s => ("&{" ++ p ++ " " ++ s ++ "}")%string | ASelector _ s => ("&{0xc000 " ++ s ++ "}")%string | AOther t => t end.
+Definition tys := [AIdent "string"; AIdent "int"; ASelector (AIdent "time") "Duration"; AIdent "bool"; ASelector (AIdent "context") "Context"; AIdent "float64"; AIdent "error"].
+Definition fields := flat_map (fun ty => map (fun ns => {| fld_names := ns; fld_type := ty |}) [[]; ["a"]; ["a"; "b"]]) tys.
+Definition plists := words_upto fields 2.
+Definition rlists : list ast_fieldlist := [None; Some [{| fld_names := []; fld_type := AIdent "error" |}]; Some [{| fld_names := []; fld_type := AIdent "int" |}]].
+Definition grid := pairs (pairs plists rlists) [false; true].
+Definition ft_of (x : list ast_field * ast_fieldlist * bool) : ast_functype := {| ft_typeparams := None; ft_params := Some (fst (fst x)); ft_results := snd (fst x) |}.
+Definition show_f (f : ast_field) : string := (String.concat "," (fld_names f) ++ " " ++ sp (fld_type f))%string.
+Definition show_l (l : ast_fieldlist) : list string := match l with None => ["<nil>"] | Some fs => map show_f fs end.
+Definition show_x (r : x_Function * option string) : list string :=
+  if is_nil (snd r) then (if x_Function_IsContext (fst r) then "ctx" else "no ctx") :: (if x_Function_IsError (fst r) then "err" else "no err")
+       :: map (fun a => (x_Arg_Name a ++ " " ++ x_Arg_Type a)%string) (x_Function_Args (fst r)) else ["error"].
+Definition aty_text (a : aty) : string := match a with AString => "string" | AInt => "int" | ABool => "bool" | ADur => "time.Duration" end.
+Definition show_m (m : option function) : list string :=
+  match m with Some fn => (if f_isctx fn then "ctx" else "no ctx") :: (if f_iserr fn then "err" else "no err") :: map (fun a => (fst a ++ " " ++ aty_text (snd a))%string) (f_args fn) | None => ["error"] end.
+Definition fdecl_of (generic : bool) (ft : ast_functype) : fdecl :=
+  {| fname := ""; recv := None; tparams := generic; params := map pgroup_of (fieldlist_List (ft_params ft));
+     res := map (rgroup_of sp) (fieldlist_List (ft_results ft)); fdoc := ""; fsyn := "" |}.
+Definition D := Eval vm_compute in firstn 3 (diffs (list_eqb String.eqb)
+  (fun x : list ast_field * ast_fieldlist * bool => [show_l (Some (fst (fst x))); show_l (snd (fst x)); [if snd x then "generic" else "not generic"]]) (fun r => r)
+  (fun x => show_x (x_funcType sp (fun _ => snd x) (ft_of x))) (fun x => show_m (Classify.funcType (fdecl_of (snd x) (ft_of x)))) grid).
+""",
+        "args": ["parameters (names type)", "results", "type parameters"], "replay": None},
 }
 
 
@@ -906,7 +958,7 @@ def _fn_input(it, translated, args):
             out["%s#%d" % (name, k)] = dict(zip(_fn_fields(translated, name), val))
         elif name in ("i", "j"):
             out[name] = int(val[0])
-        elif name in ("op", "prefix", "name", "goos", "goarch", "s", "goCmd", "runtime.GOOS", "f.Name", "doc.Synopsis(f.Doc)", "value / runtime.GOOS"):
+        elif name in ("op", "prefix", "name", "goos", "goarch", "s", "goCmd", "runtime.GOOS", "f.Name", "doc.Synopsis(f.Doc)", "value / runtime.GOOS", "inv.Dir"):
             out[name] = val[0]
         else:
             out[name] = val
